@@ -32,9 +32,26 @@ ASSUMPTIONS = [
     "value parsers limited to string / os-string / bool / u8-count / ranged i64 (custom parsers, FalseyValueParser for flags are outside the model)",
     "theorems quantify over every command record / matcher / state (no validity hypothesis unless stated); ids of groups and args are assumed distinct only where a hypothesis says so",
 ]
-TECHNIQUE = "Coq proof about the executable parser model (phase order, frame lemmas for add_env/add_defaults, set_source monotonicity, validate blind to default entries) + differential run + python precedence oracle"
-LEVEL_TEXT = "proof"
-LEVEL_NOTE = "full statement for the modelled parser; model tied to the code by the differential stream"
+TECHNIQUE = ("Coq proof about the executable parser model (phase order of get_matches_with; frame theorems for add_env / "
+             "add_defaults / add_default_value; parse-loop invariant 'every command-line entry is labelled CommandLine'; "
+             "set_source monotone; validate and args_present blind to DefaultValue entries; default-missing injection iff "
+             "the occurrence is empty; source tables regenerated from action.rs / value_source.rs) + extracted-model / "
+             "implementation correspondence + python precedence oracle on the implementation")
+LEVEL_TEXT = ("Machine-checked theorems (Coq 8.16, closed under the global context) about the executable model of "
+              "Parser::{get_matches_with, add_env, add_defaults, add_default_value, react, start_custom_arg, parse (token loop)}, "
+              "MatchedArg::{set_source, check_explicit}, Validator::validate and ArgMatches::args_present, for every command "
+              "record, environment (a_env per argument), state and argument vector: on success the parse is validate after "
+              "add_defaults after add_env after the command line; per argument the entry is the command-line one untouched, "
+              "else the environment value labelled EnvVariable, else the first matching conditional default / plain default "
+              "labelled DefaultValue, else absent; DefaultValue entries never start groups, never remove overrides and do not "
+              "change the validator's verdict or args_present.  The model is tied to clap_builder by running the extracted model "
+              "and the real crate (debug build) on the same generated cases on every run and comparing per level the (id, "
+              "value_source, raw occurrences) lists in ids() order and args_present; a python oracle written from the "
+              "property text checks the implementation's output directly.")
+LEVEL_NOTE = ("Trusted: Coq kernel, extraction (ExtrOcamlBasic), OCaml driver, Rust harness, generators, python oracle. The "
+              "per-argument theorems assume argument ids distinct from each other and from group ids (clap's debug assertions). "
+              "'A conditional default fires' is defined as the code and documentation do: the other argument has an entry of any "
+              "source, so the result depends on the definition order (theorem C06_conditional_default_order_dependent).")
 
 REL_KINDS = {"ArgumentConflict", "MissingRequiredArgument", "MissingSubcommand", "DisplayHelpOnMissingArgumentOrSubcommand"}
 VALUE_KINDS = {"ValueValidation", "InvalidValue", "InvalidUtf8"}
@@ -719,8 +736,8 @@ def make_nontrivial(stats_out):
 # ====================================================================== streams
 def streams(tier, rng):
     quick = tier == "quick"
-    n_main, n_mut, n_pair = (6000, 3000, 3000) if quick else (60000, 30000, 30000)
-    d1, d2, d3 = {}, {}, {}
+    n_main, n_mut, n_pair = (8000, 4000, 4000) if quick else (160000, 60000, 60000)
+    d1, d2, d3 = ({"measured": "on the implementation's results of this run (filled in while the stream is evaluated)"} for _ in range(3))
     return [
         Stream("sources", directed_cases() + gen_cases(rng, n_main, "c06", 0.0), oracle=oracle, area="sources",
                project=project, nontrivial=make_nontrivial(d1), describe=d1),
